@@ -513,6 +513,8 @@ double Integrate_MC_Vegas(std::function<double(std::vector<double>&, const doubl
 		}
 		for(j = 0; j < ndim; j++)
 		{
+			if(!(dt[j] > 0.0))
+				continue;	// The integrand vanished at every sample of this iteration: no information to refine the grid with (log(0) below would turn the bin weights into NaN).
 			rc = 0.0;
 			for(i = 0; i < nd; i++)
 			{
